@@ -101,6 +101,12 @@ func c07AfterLastToken() []string {
 	add("leaf l { type decimal64; }")
 	add("leaf l { type identityref; }")
 	add("leaf l { type leafref; }")
+	// pattern arguments at and beyond the edge of what the regular expression compiler takes (the parser
+	// wraps the pattern before compiling it: a text may be fine bare and broken wrapped, or the reverse)
+	for _, pt := range []string{`\Qa.b`, `\Qa.b\E`, `a\`, `\`, `[`, `[a`, `(`, `)`, `a)(b`, `)(`, `(?P<n>`, `(?i`, `(?`, `x{2,1}`, `a{1001}`, `\pX`, `\p{`, `*`, `+?`, `a**`,
+		`[[:foo:]]`, `\8`, `[z-a]`, `\xZZ`, `\x{110000}`, `a|`, `|`, `()`, `(|)`, `\E`, `\Q`, "a\x00b", "\xff"} {
+		add("leaf l { type string { pattern '" + pt + "'; } }")
+	}
 	// arguments that the parser takes apart itself (names of a key or unique, parts of a range or length,
 	// steps of a schema node identifier), with every kind of blank and near-blank between the parts
 	for _, sep := range []string{" ", "  ", "\t", "\n", "\r", "\r\n", "\r\n   ", " \r", "\r ", "\r\r", "\n\r", "\f", "\v", "\u00a0", "\u2028", "\x00", ""} {
